@@ -88,7 +88,10 @@ def certify(prop, rep, c, parts=("valid",), name="cert"):
             terms = []
             for e in es:
                 for part in parts:
-                    if part == "productive" and not e["g"].reduced(e["start"]):
+                    # the tables list the productions of ALL nonterminals of the grammar, also of those no start
+                    # symbol reaches: `productive` (a hypothesis of the C04/C05 viability theorems) speaks about all
+                    # of them, so it is only demanded when every nonterminal derives a terminal string
+                    if part == "productive" and not (e["g"].reduced(e["start"]) and all(nt in e["g"].min_height() for nt in e["g"].rules)):
                         continue
                     arg = "T_%s" % e["tid"] if part == "start_eof_only" else "T_%s C_%s" % (e["tid"], e["tid"])
                     terms.append((e, part, "%s %s" % (part, arg)))
